@@ -630,8 +630,10 @@ where
 
 impl<I: Integer, const N: usize> Hash for Bvf<I, N> {
     fn hash<H: Hasher>(&self, state: &mut H) {
-        self.length.hash(state);
-        for i in 0..Self::capacity_from_bit_len(self.length) {
+        // Eq compares values and ignores the length, so only the significant words may be hashed.
+        let words = Self::capacity_from_bit_len(self.length - self.leading_zeros());
+        words.hash(state);
+        for i in 0..words {
             self.data[i].hash(state);
         }
     }
